@@ -127,6 +127,9 @@ class Space:
     # ------------------------------------------------------------------ per path
     def begin(self):
         self.pos = 0
+        self.ndraw = 0
+        self.nwit = 0
+        self.choices = {}           # nonlinear mode: choose() values kept out of the path condition
         self.vars = []              # (name, z3 const, kind)
         self.pc = []
         self.trace = []
@@ -191,7 +194,14 @@ class Space:
 
     # ------------------------------------------------------------------ variables
     def _fresh(self, sort, kind, label):
-        name = '%s%d:%s' % (kind, len(self.vars), label or '')
+        """kinds b/i/r/c are drawn by the harness (numbered by draw order, the same numbering ConcreteSpace
+        uses); any other kind is an internal witness (sqrt, remainder) with its own counter."""
+        if kind in 'birc':
+            name = '%s%d:%s' % (kind, self.ndraw, label or '')
+            self.ndraw += 1
+        else:
+            name = 'w%d!%s:%s' % (self.nwit, kind, label or '')
+            self.nwit += 1
         c = z3.Const(name, sort)
         self.vars.append((name, c, kind))
         return c
@@ -219,10 +229,11 @@ class Space:
         """Concrete int in range(n); n-way fork on a fresh Int variable."""
         assert isinstance(n, int) and n >= 1
         c = self._fresh(z3.IntSort(), 'c', label)
-        if n == 1:
-            self._add(c == 0)
-            return 0
-        k = self._branch(list(range(n)), None)
+        k = 0 if n == 1 else self._branch(list(range(n)), None)
+        if self.nonlinear:
+            # Int constraints in the path condition keep z3 off nlsat: the value is concrete anyway
+            self.choices[c.decl().name()] = k
+            return k
         self._add(c == k)
         # model stays a model only if it happens to agree; cheapest is to drop it
         self.model = None
@@ -347,7 +358,11 @@ class Space:
         self.covers.add(tag)
 
     def note(self, *parts):
-        self.trace.append(' '.join(str(p) for p in parts))
+        # formatted lazily (z3 pretty-printing of proxies is expensive)
+        self.trace.append(parts if len(parts) != 1 or not isinstance(parts[0], str) else parts[0])
+
+    def trace_lines(self):
+        return [t if isinstance(t, str) else ' '.join(str(p) for p in t) for t in self.trace]
 
     def done(self):
         """Final statement of every harness (reachability twin hooks in here)."""
@@ -372,6 +387,8 @@ class Space:
                 if ok:
                     model = m
             except Inconclusive:
+                self.q_unknown -= 1         # an optional nicety, not a verdict
+                self.queries -= 1
                 model = None
         if model is None:
             if self.model is None:
@@ -382,6 +399,9 @@ class Space:
             model = self.model
         out = {}
         for name, c, _ in self.vars:
+            if name in self.choices:
+                out[name] = self.choices[name]
+                continue
             if model is None:
                 v = {'b': False, 'i': 0, 'c': 0, 'r': Fraction(0)}[name[0]]
             else:
@@ -469,6 +489,9 @@ class ConcreteSpace:
 
     def note(self, *parts):
         self.trace.append(' '.join(str(p) for p in parts))
+
+    def trace_lines(self):
+        return list(self.trace)
 
     def done(self):
         self.covers.add('end')
